@@ -182,6 +182,9 @@ def run_C02(run):
     # (5) and/or over multi-step operands with function-valued / positional nested predicates (merge rewrite)
     run.gen_and_replay("MC_Expr", consts(BASE_EXPR, Family="C02merge", MaxNodes=4 if q else 5, UseCat=True),
                        name="preds-merge-operands", kind="sel-set")
+    # (6) Flow B: seeded documents up to 14 nodes, paths of up to 3 steps carrying up to 3 predicates of nesting depth 2
+    tr = run.drive("preds", 2500 if q else 40000, extra=["-nodes", "14"])
+    run.validate_batch(tr, "preds-flowB")
 
 
 def run_C03(run):
@@ -203,18 +206,25 @@ def run_C07(run):
     run.gen_and_replay("MC_Expr", consts(VAL_EXPR, Family="C07cmp"), name="cmp-matrix", kind="eval")
     run.gen_and_replay("MC_Expr", consts(VAL_EXPR, Family="C07bool"), name="bool-ops", kind="eval")
     run.gen_and_replay("MC_Expr", consts(VAL_EXPR, Family="C07pred"), name="cmp-as-predicate", kind="sel-set")
+    tr = run.drive("values-bool", 2500 if q else 40000, extra=["-nodes", "12"])
+    run.validate_batch(tr, "cmp-flowB")
 
 
 def run_C08(run):
     q = run.tier == "quick"
     run.gen_and_replay("MC_Expr", consts(VAL_EXPR, Family="C08d1"), name="arith-depth1", kind="eval")
     run.gen_and_replay("MC_Expr", consts(VAL_EXPR, Family="C08d2" if q else "C08d2big"), name="arith-depth2", kind="eval")
+    # depth 3-4 by seeded generation (Flow B)
+    tr = run.drive("values-num", 3000 if q else 50000, extra=["-nodes", "12"])
+    run.validate_batch(tr, "arith-flowB")
 
 
 def run_C09(run):
     q = run.tier == "quick"
     for fam in ("C09two", "C09one", "C09sub", "C09nest"):
         run.gen_and_replay("MC_Expr", consts(VAL_EXPR, Family=fam), name="str-" + fam[3:], kind="eval")
+    tr = run.drive("values-str", 3000 if q else 50000, extra=["-nodes", "12"])
+    run.validate_batch(tr, "str-flowB")
 
 
 def run_C04(run):
